@@ -48,6 +48,7 @@ import MpcVerif.Proofs.SymProc
 import MpcVerif.Proofs.GarblerProc
 import MpcVerif.Proofs.PoolGarble
 import MpcVerif.Proofs.SymAcc
+import MpcVerif.Proofs.StreamDef
 
 namespace Mpc.Sym
 open Mpc LabelAlg
@@ -576,6 +577,150 @@ circuits on five wires (the constant-wire prologue on input wire 0, then an OR
 that overwrites nothing), a safe accounting other than the code's. -/
 example : wfFrom 5 [[⟨.inv, 0, 0, 2⟩, ⟨.and, 0, 2, 3⟩], [⟨.or, 3, 1, 4⟩]].flatten (fun w => decide (w < 2)) = true ∧
     TweakAcc.Safe (fun _ => 3) ∧ codeAcc.Safe := by decide
+
+/-! ### A gate input that is not a defined wire
+
+The two streaming theorems above assume `wfFrom`: every gate input of the stream
+is a session input wire or the output of an earlier gate.  `Program.Stream`
+establishes it when it builds the wire-id lists of each `Streaming.Garble` call
+(operand padding; the `circ` arm pads every argument of a native circuit call
+up to the width the circuit file declares, with the streamed zero wire).  The
+check evaluates the hypothesis on the gate list of every analysed real session
+(driver op `c04def`: `streamDefined`, proved equal to `wfFrom` by
+`wfArr_eq_wfFrom`) against the verdict of the harness's shadow garbler, which
+names every gate input that no gate wrote.  What the garbler transmits for a
+gate that reads such a wire — the zero value of its wire table, both labels
+zero — is stated here: the offset itself, or the raw zero-label of the other
+input next to whose one-label the evaluator then holds both labels of a wire. -/
+
+theorem sbit_zero' {L : Type} [LabelAlg L] : sbit (LabelAlg.zero : L) = false := by
+  have h := LabelAlg.sbit_xor (LabelAlg.zero : L) LabelAlg.zero
+  rw [LabelAlg.xor_self] at h
+  simpa using h
+
+/-- **The rows of an AND gate one of whose inputs is an undefined wire** (both
+labels zero: `default`), in ANY label algebra, for ANY hash, at any tweak.
+First input undefined: the first row is the offset when the permute bit of the
+other input is 1 (zero otherwise).  Second input undefined: the second row is
+the zero-label of the first input, in the clear. -/
+theorem C04_undefined_input_and_rows {L : Type} [LabelAlg L] (H : Hash L) (r : L) (x : WireL L) (id : Nat) :
+    (garbleCore H r .and default x id).2 =
+        [if sbit x.l0 then r else LabelAlg.zero, H.h1 x.l0 (id + 1) ^^^ H.h1 x.l1 (id + 1)] ∧
+      (garbleCore H r .and x default id).2 = [H.h1 x.l0 id ^^^ H.h1 x.l1 id, x.l0] := by
+  have hd : (default : WireL L) = ⟨LabelAlg.zero, LabelAlg.zero⟩ := by
+    show (⟨default, default⟩ : WireL L) = _
+    rw [LabelAlg.default_eq]
+  constructor
+  · rw [hd]
+    cases hb : sbit x.l0 <;> simp [garbleCore, hb, xor_comm']
+  · rw [hd]
+    simp [garbleCore, sbit_zero', xor_comm']
+
+/-- Executed with the hash of the code under any block function: the offset in
+the clear; the raw zero-label. -/
+example (π : BitVec 128 → BitVec 128) (r x : BitVec 128) (hx : x.msb = true) (id : Nat) :
+    (garbleCore (hashOf π) r .and default ⟨x, x ^^^ r⟩ id).2.head? = some r ∧
+      (garbleCore (hashOf π) r .and ⟨x, x ^^^ r⟩ default id).2.getLast? = some x := by
+  have h := C04_undefined_input_and_rows (hashOf π) r ⟨x, x ^^^ r⟩ id
+  have hs : sbit x = true := hx
+  have h1 : (garbleCore (hashOf π) r .and default ⟨x, x ^^^ r⟩ id).2 = _ := h.1
+  have h2 : (garbleCore (hashOf π) r .and ⟨x, x ^^^ r⟩ default id).2 = _ := h.2
+  rw [h1, h2]
+  simp [hs]
+
+theorem streamStore_get_input {L : Type} [LabelAlg L] (n nIn : Nat) (r : L) (inl : Nat → L) (a : Nat)
+    (ha : a < nIn) (hn : nIn ≤ n) : (streamStore n nIn r inl).get a = ⟨inl a, inl a ^^^ r⟩ := by
+  simp only [streamStore]
+  rw [get_range_map' _ _ _ (by omega)]
+  simp [ha]
+
+theorem streamStore_get_other {L : Type} [LabelAlg L] (n nIn : Nat) (r : L) (inl : Nat → L) (u : Nat)
+    (hu : nIn ≤ u) : (streamStore n nIn r inl).get u = default := by
+  by_cases hun : u < n
+  · simp only [streamStore]
+    rw [get_range_map' _ _ _ hun]
+    have : ¬ u < nIn := by omega
+    simp [this]
+  · simp [streamStore, Store.get, Array.getD, hun]
+
+/-- **A stream with an undefined gate input leaks the offset** — for ANY
+accounting, hash and label algebra, on any wire store: the one-gate streams
+`z := AND(u, a)` and `z := AND(a, u)` with `a` an input wire and `u` a wire
+nothing wrote are exactly not `wfFrom`; the streaming evaluator's view of the
+first contains the offset itself whenever the permute bit of `a` is 1, and the
+view of the second contains two values that differ by the offset whenever the
+value of `a` is 1 (the transmitted row is the zero-label of `a`, the evaluator
+holds its one-label). -/
+theorem C04_stream_undefined_input_leaks {L : Type} [LabelAlg L] (H : Hash L) (r : L) (inl : Nat → L)
+    (tw : TweakAcc) (n nIn a u z : Nat) (ha : a < nIn) (hu : nIn ≤ u) (hn : u < n) (xy : List Bool) :
+    let ws0 := streamStore n nIn r inl
+    let V1 := streamView (streamGarbleAcc H r tw [[⟨.and, u, a, z⟩]] ws0 0).2.2 ws0 nIn xy
+    let V2 := streamView (streamGarbleAcc H r tw [[⟨.and, a, u, z⟩]] ws0 0).2.2 ws0 nIn xy
+    wfFrom n [[⟨.and, u, a, z⟩]].flatten (fun w => decide (w < nIn)) = false ∧
+    wfFrom n [[⟨.and, a, u, z⟩]].flatten (fun w => decide (w < nIn)) = false ∧
+    (sbit (inl a) = true → r ∈ V1) ∧
+    (xy.getD a false = true → ∃ t ∈ V2, ∃ s ∈ V2, t ^^^ s = r) := by
+  intro ws0 V1 V2
+  have hnu : ¬ u < nIn := by omega
+  have hga : ws0.get a = ⟨inl a, inl a ^^^ r⟩ := streamStore_get_input n nIn r inl a ha (by omega)
+  have hgu : ws0.get u = default := streamStore_get_other n nIn r inl u hu
+  obtain ⟨h1, h2⟩ := C04_undefined_input_and_rows H r (⟨inl a, inl a ^^^ r⟩ : WireL L) 0
+  refine ⟨by simp [wfFrom, hnu], by simp [wfFrom, hnu, Op.binary], ?_, ?_⟩
+  · intro hs
+    simp only [V1, streamView, streamGarbleAcc, garbleGatesAcc, hga, hgu, h1, hs, if_true,
+      List.append_nil, List.flatten_cons, List.flatten_nil]
+    simp
+  · intro hx
+    refine ⟨inl a, ?_, inl a ^^^ r, ?_, by simp [xor_comm', xor_left_comm']⟩
+    · simp only [V2, streamView, streamGarbleAcc, garbleGatesAcc, hga, hgu, h2,
+        List.append_nil, List.flatten_cons, List.flatten_nil]
+      simp
+    · simp only [V2, streamView]
+      apply List.mem_append_right
+      simp only [List.mem_map, List.mem_range]
+      exact ⟨a, ha, by rw [hga, hx]; rfl⟩
+
+/-- Non-vacuity, with the hash of the code under any block function and the
+code's accounting: input wires 0, 1, the gate `w3 := AND(w2, w0)` reads wire 2
+that nothing wrote; permute bit of wire 0 set: the offset is in the view. -/
+example (π : BitVec 128 → BitVec 128) (r x y : BitVec 128) (hx : x.msb = true) :
+    r ∈ streamView (streamGarbleAcc (hashOf π) r codeAcc [[⟨.and, 2, 0, 3⟩]]
+      (streamStore 4 2 r (fun i => if i = 0 then x else y)) 0).2.2
+      (streamStore 4 2 r (fun i => if i = 0 then x else y)) 2 [true, false] :=
+  (C04_stream_undefined_input_leaks (hashOf π) r (fun i => if i = 0 then x else y) codeAcc 4 2 0 2 3
+    (by decide) (by decide) (by decide) [true, false]).2.2.1 hx
+
+/-- ... and `w3 := AND(w0, w2)` with input bit 1 on wire 0: two values of the
+view differ by the offset. -/
+example (π : BitVec 128 → BitVec 128) (r x y : BitVec 128) :
+    ∃ t ∈ streamView (streamGarbleAcc (hashOf π) r codeAcc [[⟨.and, 0, 2, 3⟩]]
+        (streamStore 4 2 r (fun i => if i = 0 then x else y)) 0).2.2
+        (streamStore 4 2 r (fun i => if i = 0 then x else y)) 2 [true, false],
+      ∃ s ∈ streamView (streamGarbleAcc (hashOf π) r codeAcc [[⟨.and, 0, 2, 3⟩]]
+        (streamStore 4 2 r (fun i => if i = 0 then x else y)) 0).2.2
+        (streamStore 4 2 r (fun i => if i = 0 then x else y)) 2 [true, false], t ^^^ s = r :=
+  (C04_stream_undefined_input_leaks (hashOf π) r (fun i => if i = 0 then x else y) codeAcc 4 2 0 2 3
+    (by decide) (by decide) (by decide) [true, false]).2.2.2 rfl
+
+/-- **Streaming sessions whose gate list passes the executed check are
+covered.**  `streamDefined` is what the driver op `c04def` evaluates on the gate
+list of every analysed real session; by `wfArr_eq_wfFrom` it is the hypothesis
+of `C04_stream_no_two_labels_of_a_wire`. -/
+theorem C04_stream_defined_sessions_secret (σ : Atom Code → Bool) (hσ : σ .R = true)
+    (code : SymL Code → Code) (hsep : Separates σ code) (n nIn : Nat) (hn : nIn ≤ n)
+    (steps : List (List Gate)) (hdef : streamDefined n nIn steps.flatten = true) (xy : List Bool) :
+    let ws0 := streamStore n nIn (symR σ) (symInl σ)
+    let V := streamView (streamGarble (symHash σ code) (symR σ) true steps ws0 0).2.2 ws0 nIn xy
+    ¬ InSpan (fun t => t ∈ V) (symR σ) ∧ (∀ t ∈ V, t ≠ symR σ) ∧
+      (∀ t ∈ V, ∀ u ∈ V, t ^^^ u ≠ symR σ) := by
+  rw [wfArr_eq_wfFrom] at hdef
+  exact C04_stream_no_two_labels_of_a_wire σ hσ code hsep n nIn hn steps hdef xy
+
+/-- Non-vacuity of the executed check: the stream of the earlier example passes,
+the one-gate streams with an undefined input do not. -/
+example : streamDefined 5 2 [[⟨.inv, 0, 0, 2⟩, ⟨.and, 0, 2, 3⟩], [⟨.or, 3, 1, 4⟩]].flatten = true ∧
+    streamDefined 4 2 [[⟨.and, 2, 0, 3⟩]].flatten = false ∧
+    streamDefined 4 2 [[⟨.and, 0, 2, 3⟩]].flatten = false := by decide +kernel
 
 /-- sha2pc round 3 (`OutputHints`) transmits both labels of every output
 wire: in any label algebra their XOR is the offset. -/
